@@ -333,6 +333,7 @@ def mk_laparams(d: Optional[Dict[str, Any]]):
 
 # ------------------------------------------------------------------ implementation adapters
 
+PTSLOG: List[Tuple[List[Any], str]] = []   # (item.pts, item.get_pts()) of the path items of the last dumps
 NUMLOG: List[Tuple[str, Any]] = []      # raw numbers behind the formatted fields of the last dumps
 
 
@@ -374,6 +375,12 @@ def fmt_request(kind: str, v) -> Optional[Tuple[str, str, str, Any]]:
         if None in parts or len(parts) != 4:
             return None
         return ("fmt.bbox " + " ".join(parts), "tie", bbox2str(v), {"op": "fmt.bbox", "value": [repr(x) for x in v]})
+    if kind == "pts":
+        pts, got = v
+        parts = [srat(x) for p in pts for x in p]
+        if None in parts or any(len(p) != 2 for p in pts):
+            return None
+        return (" ".join(["fmt.pts"] + parts), "tie", got or "-", {"op": "fmt.pts", "value": [repr(p) for p in pts]})
     r = srat(v)
     if r is None:
         return None
@@ -389,11 +396,15 @@ def dump_item(it) -> List[Any]:
         if it.groups is not None:
             groups = [dump_group(g) for g in it.groups]
         return ["page", str(it.pageid), fmt_bbox(it.bbox), fmt_d(it.rotate), [dump_item(c) for c in it], groups]
+    if isinstance(it, (L.LTLine, L.LTRect)) and len(PTSLOG) < 400:
+        PTSLOG.append((list(it.pts), it.get_pts()))      # LTLine / LTRect inherit get_pts (not written by the converter)
     if isinstance(it, L.LTLine):
         return ["line", fmt_d(it.linewidth), fmt_bbox(it.bbox)]
     if isinstance(it, L.LTRect):
         return ["rect", fmt_d(it.linewidth), fmt_bbox(it.bbox)]
     if isinstance(it, L.LTCurve):
+        if len(PTSLOG) < 400:
+            PTSLOG.append((list(it.pts), it.get_pts()))
         return ["curve", fmt_d(it.linewidth), fmt_bbox(it.bbox), ",".join("%.3f,%.3f" % p for p in it.pts)]
     if isinstance(it, L.LTFigure):
         return ["figure", it.name, fmt_bbox(it.bbox), [dump_item(c) for c in it]]
@@ -561,6 +572,41 @@ def _impl_convert(pdf: bytes, la, otype: str, codec: Optional[str], strip: bool,
             except Exception:  # noqa: BLE001
                 pass
             os.unlink(path)
+
+
+def impl_text_direct(pdf: bytes, la, showpageno: bool, codec: Optional[str] = None):
+    """TextConverter driven directly (the way tools/pdf2txt's predecessors and library users do): the only way to
+    reach the `showpageno` branch of receive_layout.  Returns (output, captured LTPage dumps)."""
+    from pdfminer.converter import TextConverter
+    from pdfminer.pdfinterp import PDFPageInterpreter, PDFResourceManager
+    from pdfminer.pdfpage import PDFPage
+    pages: List[Any] = []
+
+    class Cap(TextConverter):
+        def receive_layout(self, ltpage):
+            pages.append(dump_item(ltpage))
+            return super().receive_layout(ltpage)
+
+    rs = PDFResourceManager()
+    fp: Any = io.StringIO() if codec is None else io.BytesIO()
+    dev = Cap(rs, fp, codec=codec or "utf-8", laparams=mk_laparams(la), showpageno=showpageno)
+    ip = PDFPageInterpreter(rs, dev)
+    for page in PDFPage.get_pages(io.BytesIO(pdf)):
+        ip.process_page(page)
+    dev.close()
+    return fp.getvalue(), pages
+
+
+def spec_text_pn(tree: List[Any], showpageno: bool) -> str:
+    return "".join(("Page %s\n" % p[1] if showpageno else "") + spec_text_item(p) for p in tree)
+
+
+def has_box(node) -> bool:
+    k = node[0]
+    if k == "textbox":
+        return True
+    idx = {"page": 4, "figure": 3, "textline": 2}.get(k)
+    return idx is not None and any(has_box(c) for c in node[idx])
 
 
 def impl_extract_text(pdf: bytes, la):
@@ -869,6 +915,7 @@ def eval_case(spec, la, strip: bool, codecs: List[str], want_model: bool = True,
 
     try:
         del NUMLOG[:]
+        del PTSLOG[:]
         ref = impl_tree(pdf, la)
     except Exception as e:  # noqa: BLE001
         fail("building the layout tree raised " + type(e).__name__, "a tree", repr(e), stage="tree")
@@ -928,6 +975,13 @@ def eval_case(spec, la, strip: bool, codecs: List[str], want_model: bool = True,
             inp = {"spec": spec, **cfg}
             res.req.append((tree_line("text", tree), "tie", hexs(out), {"op": "text", **inp}))
             res.req.append((tree_line("spectext", tree), "spec", hexs(out), {"op": "spectext", **inp}))
+            res.req.append((tree_line("textpn", tree, "0"), "tie", hexs(out), {"op": "textpn", **inp}))
+            boxes = any(has_box(p) for p in tree)
+            if la is None and boxes:
+                fail("laparams=None (raw glyph mode) produced text boxes", "no LTTextBox", "LTTextBox", otype="text",
+                     stage="text")
+            res.req.append((tree_line("textraw", tree, "0"), "spec", "boxes" if boxes else hexs(out),
+                            {"op": "textraw", **inp}))
             text_runs[None] = (out, tree)
         else:
             if not representable(exp_text, codec):
@@ -939,6 +993,46 @@ def eval_case(spec, la, strip: bool, codecs: List[str], want_model: bool = True,
             if dec != exp_text:
                 fail("binary sink decoded with its codec differs from the text sink (text output)", exp_text, dec,
                      otype="text", codec=codec, stage="sink")
+    # ---- TextConverter constructed with showpageno (not reachable through high_level): text sink + one binary sink
+    if only in (None, "text"):
+        pn_codecs: List[Optional[str]] = [None]
+        for codec in codecs:
+            if None in text_runs and representable(spec_text_pn(text_runs[None][1], True), codec):
+                pn_codecs.append(codec)
+                break
+        pn_text: Optional[str] = None
+        for codec in pn_codecs:
+            try:
+                out, tree = impl_text_direct(pdf, la, True, codec)
+            except Exception as e:  # noqa: BLE001
+                fail(f"text conversion with showpageno raised {type(e).__name__}" + (" (binary sink)" if codec else ""),
+                     "text output", repr(e), otype="text", codec=codec, stage="convert", showpageno=True)
+                continue
+            exp_text = spec_text_pn(tree, True)
+            if codec is None:
+                same_hierarchy(tree, text_only, "text output (showpageno)")
+                if out != exp_text:
+                    fail("text output with showpageno differs from page headers + in-order text of the layout tree",
+                         exp_text, out, otype="text", stage="text", showpageno=True)
+                inp = {"spec": spec, **cfg, "showpageno": True}
+                res.req.append((tree_line("textpn", tree, "1"), "tie", hexs(out), {"op": "textpn", **inp}))
+                res.req.append((tree_line("spectextpn", tree, "1"), "spec", hexs(out), {"op": "spectextpn", **inp}))
+                res.req.append((tree_line("textraw", tree, "1"), "spec",
+                                "boxes" if any(has_box(p) for p in tree) else hexs(out), {"op": "textraw", **inp}))
+                pn_text = out
+            elif representable(exp_text, codec):
+                try:
+                    dec = out.decode(codec)
+                except UnicodeError as e:
+                    dec = "<undecodable: %s>" % e
+                if dec != exp_text:
+                    fail("binary sink decoded with its codec differs from the text sink (text output with showpageno)",
+                         exp_text, dec, otype="text", codec=codec, stage="sink", showpageno=True)
+        if want_model and only is None:
+            for v in PTSLOG[:3]:
+                q = fmt_request("pts", v)
+                if q is not None:
+                    res.req.append(q)
     # extract_text plumbing (default LAParams when None)
     try:
         if only not in (None, "extract_text"):
@@ -1340,6 +1434,8 @@ def flush_model(ctx: C.Ctx, results: List[CaseResult]) -> None:
     outs = ctx.driver.ask([q[0] for q in reqs])
     for (line, kind, exp, inp), got in zip(reqs, outs):
         ctx.branch(kind + ":" + inp["op"])
+        if inp["op"] == "textraw":
+            ctx.branch("textraw:" + ("tree-with-boxes" if exp == "boxes" else "raw-glyph-tree"))
         if got == exp:
             continue
         if kind == "tie" and inp["op"].startswith("fmt."):
@@ -1348,6 +1444,14 @@ def flush_model(ctx: C.Ctx, results: List[CaseResult]) -> None:
             ctx.disagree(inp["op"], inp, first_diff(exp, got), "model differs")
         elif kind == "thm":
             ctx.disagree(inp["op"], inp, "theorem instance (Lean reader on the model output = skeleton)", got)
+        elif inp["op"] in ("spectextpn", "textraw"):
+            what = ("text output with showpageno differs from the Lean specification specTextPn of the layout tree"
+                    if inp["op"] == "spectextpn" else
+                    "text output of a tree without text boxes (raw glyph mode) is not its glyph texts + form feeds "
+                    "(Lean C11_text_raw)")
+            ctx.fail(C.Failure(what, {k: v for k, v in inp.items() if k != "op"}, first_diff(exp, got)
+                               if got not in ("boxes", "bad-op") and exp != "boxes" else exp, got,
+                               {"stage": "spectext", "otype": "text"}))
         elif inp["op"] == "spectext":
             ctx.fail(C.Failure("text output differs from the Lean specification specText of the layout tree",
                                {k: v for k, v in inp.items() if k != "op"}, first_diff(exp, got), "see expected",
